@@ -268,8 +268,21 @@ var scalarKinds = []Kind{KBool, KInt, KInt8, KInt16, KInt32, KInt64, KUint, KUin
 
 var mapKeyPool = []string{"a", "b", "k1", "", "constructor", "toString", "hasOwnProperty", "valueOf", "0", "1", "10", "1e3", "-1", "\u03c0", "\U0001F600", "has space", "__defineGetter__", "length", "prototype", "a.b", "a\x00b", "\u00e9"}
 
-var fieldNamePool = []string{"A", "B", "Cc", "Dd", "X1", "Length", "Constructor", "\u00c4b", "ToString"}
+var fieldNamePool = []string{"A", "B", "Cc", "Dd", "X1", "Length", "Constructor", "ToString"}
 var unexportedPool = []string{"x", "yy", "hidden", "_u"}
+
+// noUintptr: the table lists "[]uint32, []uint -> Uint32Array" and "all other slices -> Array";
+// []uintptr is ambiguous (it is a 32-bit unsigned integer slice), so it is not used as an
+// element type of asserted cases.
+func noUintptr(t *Ty) *Ty {
+	if t.K == KUintptr {
+		return basics[KUint32]
+	}
+	return t
+}
+
+// elemKinds are the scalar kinds used as slice / array element types.
+var elemKinds = []Kind{KBool, KInt, KInt8, KInt16, KInt32, KInt64, KUint, KUint8, KUint16, KUint32, KUint64, KFloat32, KFloat64, KString}
 
 // randType builds a random composite type of bounded depth.
 func (p *prog) randType(r *rand.Rand, depth int) *Ty {
@@ -281,9 +294,9 @@ func (p *prog) randType(r *rand.Rand, depth int) *Ty {
 	}
 	switch r.Intn(6) {
 	case 0:
-		return sliceOf(p.randType(r, depth-1))
+		return sliceOf(noUintptr(p.randType(r, depth-1)))
 	case 1:
-		return arrayOf(1+r.Intn(3), p.randType(r, depth-1))
+		return arrayOf(1+r.Intn(3), noUintptr(p.randType(r, depth-1)))
 	case 2:
 		return mapOf(p.randType(r, depth-1))
 	case 3, 4:
@@ -376,7 +389,7 @@ func randVal(t *Ty, r *rand.Rand, exactOnly bool, depth int) *Val {
 		var dt *Ty
 		switch r.Intn(5) {
 		case 0:
-			dt = sliceOf(basics[scalarKinds[r.Intn(len(scalarKinds))]])
+			dt = sliceOf(basics[elemKinds[r.Intn(len(elemKinds))]])
 		case 1:
 			dt = mapOf(basics[scalarKinds[r.Intn(len(scalarKinds))]])
 		case 2:
